@@ -132,6 +132,8 @@ class C01(core.Check):
         c.append({'k': 'file', 'bytes': _tok([(10, b'\x91 1'), (65535, b'\x91 2')]), 'name': 'X'})
         c.append({'k': 'file', 'bytes': _tok([(i + 1, b'\x8f' + b'x' * 240) for i in range(280)]), 'name': 'X'})
         c.append({'k': 'prog', 'lines': ['WIDTH 40', 'SCREEN 0,,5,5', 'WIDTH 80', 'PRINT "x"'], 'default': False, 'video': 'vga'})
+        c.append({'k': 'prog', 'lines': ['SCREEN 1', 'WINDOW (0,0)-(1,1)', 'VIEW (10,10)-(10,50)', 'PRINT POINT(2)', 'PRINT PMAP(1,2)', 'PSET STEP(1,1)', 'DRAW "P1,1"'], 'default': True})
+        c.append({'k': 'prog', 'lines': ['SCREEN 1', 'VIEW SCREEN (5,5)-(60,5)', 'WINDOW SCREEN (0,0)-(100,100)', 'LINE -STEP(2,2)', 'PRINT POINT(3)'], 'default': True})
         c.append({'k': 'prog', 'lines': ['1 ON ERROR GOTO 9000', '2 DIM ZZ%(INT((FRE(0)-17)/2))', '10 FOR I=1 TO 3', '20 PRINT I', '30 NEXT', '40 END', '9000 RESUME NEXT', 'RUN', 'GOTO 30'],
                   'default': True})
         c.append({'k': 'prog', 'lines': ['SCREEN 7,,6,6', 'SCREEN 9', 'SCREEN 0,,0,0', 'PRINT "x"'], 'default': False, 'video': 'vga'})
@@ -176,7 +178,10 @@ class C01(core.Check):
     FAULT = ['ERROR 5', 'ERROR 255', 'ERROR 0', 'PRINT 1/0', 'A=SQR(-1)', 'DIM A(-1)', 'GOTO 9999', 'NEXT', 'RETURN', 'WEND',
              'X$=MID$("",0)', 'A%=32768', 'PRINT CHR$(256)', 'OPEN "NOSUCH" FOR INPUT AS 1', 'READ Q', 'RESUME', 'FIELD #1,1 AS A$',
              'PRINT USING "";1', 'LOCATE 99', 'KILL "NOSUCH"', 'PRINT 1E38*1E38', 'DEF FNA(X)=X', 'X=FNQ(1)', 'CONT', 'STOP']
-    GFX_HIST = ['SCREEN 0,,5,5', 'SCREEN ,,7,7', 'SCREEN ,,4,6', 'SCREEN 7,,6,6', 'SCREEN 8,,3,3', 'SCREEN 9,,1,1', 'SCREEN 0,,0,0', 'WIDTH 40', 'WIDTH 80',
+    GFX_HIST = ['VIEW (10,10)-(10,50)', 'VIEW SCREEN (5,5)-(60,5)', 'VIEW (0,0)-(1,1)', 'VIEW (319,199)-(318,198)', 'WINDOW (0,0)-(0,1)', 'WINDOW (1,1)-(1,1)',
+                'WINDOW (-1E38,-1E38)-(1E38,1E38)', 'WINDOW (0,0)-(1E-38,1E-38)', 'PRINT POINT(2);POINT(3)', 'PRINT PMAP(1,2);PMAP(1,3);PMAP(1,0);PMAP(1,1)',
+                'PSET STEP(1,1)', 'LINE -STEP(2,2)', 'DRAW "P1,1"', 'CIRCLE STEP(0,0),5', 'PAINT STEP(1,1)', 'GET STEP(0,0)-STEP(2,2),A', 'PUT STEP(1,1),A',
+                'SCREEN 0,,5,5', 'SCREEN ,,7,7', 'SCREEN ,,4,6', 'SCREEN 7,,6,6', 'SCREEN 8,,3,3', 'SCREEN 9,,1,1', 'SCREEN 0,,0,0', 'WIDTH 40', 'WIDTH 80',
                 'PCOPY 5,0', 'PCOPY 0,7', 'SCREEN 1', 'SCREEN 2', 'SCREEN 7', 'SCREEN 9', 'SCREEN 0', 'SCREEN 1,,0,0', 'SCREEN 7,,1,0', 'SCREEN 7,,0,1', 'SCREEN ,,1,1',
                 'SCREEN ,,0,0', 'VIEW (10,10)-(50,50)', 'VIEW SCREEN (1,1)-(5,5),1,2', 'VIEW', 'WINDOW (0,0)-(1,1)', 'WINDOW SCREEN (-1,-1)-(1,1)',
                 'WINDOW', 'PCOPY 1,0', 'PCOPY 0,1', 'WIDTH 40', 'WIDTH 80', 'KEY ON', 'KEY OFF', 'CLS', 'PSET (5,5)', 'LINE (0,0)-(400,300),1,BF',
@@ -187,7 +192,23 @@ class C01(core.Check):
     def gfx_history(self):
         """display histories: mode / page / viewport / window changes interleaved with drawing and memory access"""
         rng = self.rng
-        return [rng.choice(self.GFX_HIST) for _ in range(rng.randrange(2, 8))]
+        if rng.random() < 0.35:
+            # coordinate systems: graphics mode, VIEW (also thin or degenerate) and WINDOW (also degenerate or huge) in either order,
+            # then statements that convert between physical and logical coordinates (seed C01f)
+            c = lambda m: rng.choice([0, 1, 5, 10, 10, 50, 60, m - 1, m, rng.randrange(m)])
+            vx0, vy0, vx1, vy1 = c(320), c(200), c(320), c(200)
+            q = rng.random()
+            if q < 0.2:
+                vx1 = vx0          # one pixel wide
+            elif q < 0.4:
+                vy1 = vy0          # one pixel high
+            view = 'VIEW %s(%d,%d)-(%d,%d)%s' % (rng.choice(['', 'SCREEN ']), vx0, vy0, vx1, vy1, rng.choice(['', ',1', ',1,2', ',,3']))
+            win = 'WINDOW %s(%s,%s)-(%s,%s)' % tuple([rng.choice(['', 'SCREEN '])] + [rng.choice(['0', '1', '-1', '100', '1E-38', '1E38', '-1E38', '.5', '319']) for _ in range(4)])
+            obs = ['PRINT POINT(2);POINT(3)', 'PRINT PMAP(1,2);PMAP(1,3)', 'PRINT PMAP(1,0);PMAP(1,1)', 'PSET STEP(1,1)', 'LINE -STEP(2,2)', 'DRAW "P1,1"', 'CIRCLE STEP(0,0),5',
+                   'PAINT STEP(1,1)', 'PRINT POINT(0);POINT(1)', 'PSET (0,0)', 'LINE (0,0)-(1,1),,BF', 'GET (0,0)-(1,1),A', 'PUT (0,0),A', 'VIEW', 'WINDOW', 'CLS']
+            mid = rng.choice([[win, view], [view, win], [view], [win], [win, view, win]])
+            return ['SCREEN %d' % rng.choice([1, 1, 2, 7, 9]), 'DIM A(50)'] + mid + [rng.choice(obs) for _ in range(rng.randrange(2, 6))]
+        return [rng.choice(self.GFX_HIST) for _ in range(rng.randrange(2, 10))]
 
     def memwalk(self):
         """PEEK and POKE-back over a stretch of addresses in one segment (region boundaries of the memory map: D01e), after a
